@@ -75,6 +75,8 @@ func govcHostileCorpus() []govcHostile {
 		{"field-names-as-keywords", []string{hdr("m") + "container c { Parent foo; Statement bar; } rpc r { input { Name baz; } } }"}, true},
 		{"ninth-lexer-error-is-a-backslash-at-the-end", []string{"module m { description \"\\q\\q\\q\\q\\q\\q\\q\\q\\"}, true},
 		{"ninth-lexer-error-is-a-backslash-before-a-line-break", []string{"a \"\\1\"; b \"\\2\"; c \"\\3\"; d \"\\4\"; e \"\\5\"; f \"\\6\"; g \"\\7\"; h \"\\8\"; i \"x\\\n  y\";"}, true},
+		{"inner-grouping-uses-the-enclosing-one-unused", []string{hdr("m") + "grouping k { container c { grouping inner { container v { uses k; } } leaf a { type string; } } } container top { uses k; } }"}, false},
+		{"inner-grouping-uses-the-enclosing-one-used", []string{hdr("m") + "grouping k { container c { grouping inner { uses k; } uses inner; } } container top { uses k; } }"}, true},
 		{"empty", []string{""}, false},
 		{"only-comment", []string{"// nothing\n/* at all */"}, false},
 		{"unterminated-string", []string{"module m { namespace \"urn:m; prefix m; }"}, true},
